@@ -31,6 +31,7 @@ func histPrefixes(mode srvMode) [][]string {
 		{h, "MAIL", "RCPT", "DATA"},
 		{h, "MAIL", "RCPT", "DATA_REJ"},
 		{h, "STARTTLS"},
+		{h, "MAIL_BIN_REJ", "MAIL", "RCPT"},
 	}
 }
 
@@ -60,7 +61,7 @@ func histGenerate(ctx *core.Ctx, exhaustLen, nSeeded, maxLen int, stream uint64,
 		switch a {
 		case "MAIL", "RCPT", "DATA", "BDAT", "BDAT_LAST":
 			w = 5
-		case "EHLO", "LHLO", "RSET", "RCPT_REJ", "DATA_REJ", "BDAT_LAST_REJ", "BDAT_FAIL", "BDAT0_LAST":
+		case "EHLO", "LHLO", "RSET", "RCPT_REJ", "DATA_REJ", "BDAT_LAST_REJ", "BDAT_FAIL", "BDAT0_LAST", "MAIL_BIN_REJ":
 			w = 2
 		}
 		for ; w > 0; w-- {
@@ -91,7 +92,7 @@ func c03Run(ctx *core.Ctx) {
 	if ctx.Thorough() {
 		exLen, nSeeded, maxLen = 3, 2500000, 24
 	}
-	ctx.Rule = fmt.Sprintf("lock-step command histories over %d abstract commands (valid / backend-rejected / malformed / out-of-order variants of HELO EHLO LHLO MAIL RCPT DATA BDAT RSET NOOP VRFY AUTH STARTTLS QUIT unknown): ALL histories of length <=%d appended to each of 9 prefix states (fresh, greeted, MAIL accepted, RCPT accepted, RCPT rejected, mid-BDAT, after finished DATA, after failed DATA, after STARTTLS) in 6 configurations ({SMTP, LMTP} x MaxRecipients {0,2}, and two with MaxMessageBytes=1000 where the *_BIG commands exceed the limit), plus %d seeded histories of length 3..%d; a transaction-monitor automaton driven by the observed replies judges every callback. Non-trivial: at least three backend callbacks were observed; distinct by (configuration, history).", len(histAlphabet), exLen, nSeeded, maxLen)
+	ctx.Rule = fmt.Sprintf("lock-step command histories over %d abstract commands (valid / backend-rejected / malformed / out-of-order variants of HELO EHLO LHLO MAIL (also BODY=BINARYMIME) RCPT DATA BDAT RSET NOOP VRFY AUTH STARTTLS QUIT unknown): ALL histories of length <=%d appended to each of 10 prefix states (fresh, greeted, MAIL accepted, RCPT accepted, RCPT rejected, mid-BDAT, after finished DATA, after failed DATA, after STARTTLS, envelope opened after a refused BINARYMIME sender) in 6 configurations ({SMTP, LMTP} x MaxRecipients {0,2}, and two with MaxMessageBytes=1000 where the *_BIG commands exceed the limit), plus %d seeded histories of length 3..%d; a transaction-monitor automaton driven by the observed replies judges every callback. Non-trivial: at least three backend callbacks were observed; distinct by (configuration, history).", len(histAlphabet), exLen, nSeeded, maxLen)
 	ctx.Assumptions = []string{"a second MAIL inside an open transaction taints the transaction (not judged)", "Reset is required only when a sender had been accepted", "lock-step: the next command is sent only when the server is parked waiting for input"}
 	core.RunCases(ctx, func(emit func(hcase)) {
 		histGenerate(ctx, exLen, nSeeded, maxLen, 31, emit)
